@@ -30,6 +30,26 @@ class _LogTap(logging.Handler):
             self.sink.append((record.levelname, str(record.msg)))
 
 
+def kernel_rx_queue(port):
+    """Bytes waiting in the kernel receive queue of the UDP socket bound to `port` (None if there is no such socket)."""
+    try:
+        with open("/proc/net/udp", encoding="utf-8") as fh:
+            next(fh)
+            for line in fh:
+                parts = line.split()
+                if int(parts[1].split(":")[1], 16) == port:
+                    return int(parts[4].split(":")[1], 16)
+    except Exception:
+        return None
+    return None
+
+
+class DeliveryStopped(Exception):
+    def __init__(self, ports):
+        super().__init__(f"no delivery on ports {ports}")
+        self.ports = ports
+
+
 def kernel_drops(port):
     try:
         with open("/proc/net/udp", encoding="utf-8") as fh:
@@ -58,6 +78,8 @@ class Rig:
         self.tx = socket.socket(socket.AF_INET, socket.SOCK_DGRAM)
         self.tx.setblocking(False)
         self._pending = {p: 0 for p in self.ports}
+        self.quiet_windows = False   # True: windows are closed by waiting for the kernel queue to empty, not by a sentinel
+                                     # (a sentinel is a valid broadcast and would break up a run of failing datagrams)
         self._tap = _LogTap(self.log_records)
         self._old_handler = None
         self._warn_ctx = None
@@ -159,9 +181,31 @@ class Rig:
 
     async def send(self, port, data):
         if self._pending[port] >= WINDOW:
-            await self.barrier([port])
+            if self.quiet_windows:
+                await self.drain(port)
+            else:
+                dead = await self.barrier([port])
+                if dead:
+                    raise DeliveryStopped(dead)
         self.tx.sendto(data, ("127.0.0.1", port))
         self._pending[port] += 1
+
+    async def drain(self, port):
+        """Wait until the bridge has read everything queued for `port` (no sentinel involved)."""
+        deadline = time.monotonic() + 2.0
+        i = 0
+        while True:
+            q = kernel_rx_queue(port)
+            if not q:            # empty, or nothing listens there any more (the closing barrier will tell)
+                break
+            i += 1
+            if time.monotonic() > deadline and i > 3000:
+                break
+            await asyncio.sleep(0 if i < 3000 else 0.001)
+        await asyncio.sleep(0)
+        self._pending[port] = 0
+        if kernel_drops(port):
+            raise Inconclusive(f"kernel dropped datagrams on port {port}")
 
     async def barrier(self, ports=None, what="bridge stopped delivering"):
         """Send a sentinel to each port and wait until its callback ran.  Returns the ports that never answered."""
